@@ -39,3 +39,20 @@ impl Cross {
 	#[verifier::external_body]
 	pub fn default() -> (r: Self) ensures r.up.last_delta@ == 0real, r.down.last_delta@ == 0real { unimplemented!() }
 }
+impl CrossAbove {
+	#[verifier::external_body]
+	pub fn default() -> (r: Self) ensures r.last_delta@ == 0real { unimplemented!() }
+}
+impl CrossUnder {
+	#[verifier::external_body]
+	pub fn default() -> (r: Self) ensures r.last_delta@ == 0real { unimplemented!() }
+}
+pub open spec fn clamp255(x: int) -> int { if x > 255 { 255 } else if x < -255 { -255 } else { x } }
+// `a - b` on actions: the operator forwards to the verified Action::sub
+impl SubSpecImpl<Action> for Action {
+	open spec fn obeys_sub_spec() -> bool { false }
+	open spec fn sub_req(self, rhs: Action) -> bool { true }
+	open spec fn sub_spec(self, rhs: Action) -> Action { arbitrary() }
+}
+impl core::ops::Sub for Action { type Output = Action;
+	fn sub(self, rhs: Action) -> (r: Action) ensures sv(r) == clamp255(sv(self) - sv(rhs)) { Action::sub(self, rhs) } }
